@@ -77,25 +77,11 @@ theorem C06_request_goroutines : Mcp.Gen.rpcGoStmts = modelledGoStmts := by deci
 
 /-! ## malformed input is answered -/
 
-private theorem resolve_error (c : Cfg) (st : St) (isInit : Bool) (ref : Ref) (s : Nat) (h : resolve c st isInit ref = .error s) :
-    400 ≤ s := by
-  unfold resolve at h
-  cases hm : c.mode <;> cases ref <;> simp_all <;> (repeat' (split at h <;> simp_all)) <;> omega
-
 /-- Streamable HTTP, right path: a body that is not a JSON-RPC message is answered with an HTTP error status — whatever the
     mode, the session reference and the Accept header. -/
 theorem C06_answered_streamable_partial (c : SCfg) (reg : Registry) (st : St) (ref : Ref) (acc : Bool) (b : Body)
-    (h : Malformed b) : (serveStreamable c reg st ⟨.post, true, ref, acc, b⟩).2.answeredWithError = true := by
-  cases h with
-  | unparsable => simp [serveStreamable, Reaction.http, Reaction.answeredWithError]
-  | undecodable j hj => simp [serveStreamable, servePost, hj, Reaction.http, Reaction.answeredWithError]
-  | empty j bb hj hid hm =>
-    simp only [serveStreamable, servePost, hj, hid, hm]
-    cases hr : resolve c.sess st (none.isSome && ([] : Text) == t!"initialize") ref with
-    | error s =>
-      have := resolve_error _ _ _ _ _ hr
-      simp [Reaction.http, Reaction.answeredWithError, this]
-    | ok p => simp [Reaction.http, Reaction.answeredWithError]
+    (h : Malformed b) : (serveStreamable c reg st ⟨.post, true, ref, acc, b⟩).2.answeredWithError = true :=
+  answered_streamable c reg st ref acc b h
 
 /-- …and so is every verb the server does not know. -/
 theorem C06_answered_streamable_verb (c : SCfg) (reg : Registry) (st : St) (ref : Ref) (acc : Bool) (b : Body) :
@@ -122,17 +108,8 @@ theorem C06_id_only_counterexample :
 /-- Legacy SSE, message endpoint: a body that is not a JSON-RPC message is answered with an HTTP error status or with a
     JSON-RPC error object — whatever the verb and the session parameter. -/
 theorem C06_answered_sse_partial (reg : Registry) (verb : Verb) (ref : SseRef) (b : Body) (h : Malformed b) :
-    (serveSSE reg ⟨verb, .message, ref, b⟩).answeredWithError = true := by
-  unfold serveSSE
-  by_cases hv : verb = .post
-  · subst hv
-    cases ref <;> simp [Reaction.http, Reaction.answeredWithError]
-    cases h with
-    | unparsable => simp [serveSSEMessage, Reaction.http, errMsg, isErrorMsg, hasKey, lookup, jsonrpcField]
-    | undecodable j hj => simp [serveSSEMessage, hj, Reaction.http, errMsg, isErrorMsg, hasKey, lookup, jsonrpcField]
-    | empty j bb hj hid hm =>
-      simp [serveSSEMessage, hj, hid, hm, Reaction.http, errMsg, isErrorMsg, hasKey, lookup, jsonrpcField]
-  · simp [hv, Reaction.http, Reaction.answeredWithError]
+    (serveSSE reg ⟨verb, .message, ref, b⟩).answeredWithError = true :=
+  answered_sse reg verb ref b h
 
 /-- The exclusion on legacy SSE: a request the typed decoder rejects (here: a parameter no float64 can hold) has already
     been accepted with 202 when the decode fails, and nothing follows on the stream. -/
@@ -145,8 +122,8 @@ theorem C06_sse_undecodable_request_counterexample :
 
 /-- stdio: a line that IS classified as a request is answered even when the typed decoder rejects it (−32700). -/
 theorem C06_answered_stdio_partial (reg : Registry) (j : Json) (hc : classifyStdio j = some .request)
-    (hd : decodeRequest j = none) : (serveStdio reg (.json j)).answeredWithError = true := by
-  simp [serveStdio, hc, hd, Reaction.answeredWithError, errMsg, isErrorMsg, hasKey, lookup, jsonrpcField]
+    (hd : decodeRequest j = none) : (serveStdio reg (.json j)).answeredWithError = true :=
+  answered_stdio reg j hc hd
 
 /-- The exclusion on stdio (D11): what is not JSON, not an object, not version "2.0" or neither request nor notification is
     dropped without any answer. -/
